@@ -17,7 +17,8 @@ LEVEL_NOTE = 'trusted: vk/wave.py decoder and transition counting; the capacity-
 DESIGN_REF = 'DESIGN.md section 3 C13'
 LEVEL = 'exploration'
 RULE = ('Cases as C03 plus capture time T and an accumulation-control table. Non-trivial iff some captured output has >= 2 transitions and some waveform of the run '
-        'overflowed. Distinct = digest of all case fields.')
+        'overflowed. Distinct = digest of all case fields.'
+        ' One large case per shard; a second propagation is compared waveform by waveform.')
 ASSUMPTIONS = ['sd = 0 (deterministic capture)', 'a_ctrl has the documented shape (len(lines), 3); circuits with cells lacking an output line are not combined with a_ctrl',
                'rises/falls are those of the waveform as stored (after overflow handling)']
 REACH = {'wave_sim.capture_cpu': ('wave_sim.py', 283, 327), 'wave_sim.capture_gpu': ('wave_sim.py', 445, 502), 'wave_sim.accumulate': ('wave_sim.py', 261, 281)}
